@@ -854,6 +854,7 @@ fn run_history_inner<KK: KeyKind>(ctx: &mut Ctx, h: &History, opts: &RunOpts) ->
             Some(c) => format!("{opn}[{c}]"),
             None => opn.to_string(),
         };
+        let mut abandon = false;
         let res = match res {
             Err(p) => {
                 ctx.count("panics");
@@ -875,6 +876,10 @@ fn run_history_inner<KK: KeyKind>(ctx: &mut Ctx, h: &History, opts: &RunOpts) ->
                     if (core.0, &core.1, core.2.as_slice(), core.3.as_slice(), core.4.as_slice()) != pre.core() {
                         ctx.violate("C06", "record-changed-by-failed-update", &format!("{opn}/state-unobservable"), || "record changed and accessors panic".into(), &replay);
                     }
+                    // the record was handed out with Ok by an earlier step; it is still the caller's record
+                    ctx.violate("C05", "record-invalid-after-failed-update", &format!("{opn}/unobservable"), || {
+                        format!("{ktn}: after step {i} {opn} returned Err, public_key()/verify() panic on the record")
+                    }, &replay);
                 } else {
                     ctx.violate("C05", "record-unobservable-after-ok", &site, || "public_key()/verify() panic on a record returned with Ok".into(), &replay);
                 }
@@ -939,6 +944,15 @@ fn run_history_inner<KK: KeyKind>(ctx: &mut Ctx, h: &History, opts: &RunOpts) ->
                     ctx.violate("C06", "record-changed-by-failed-update", &format!("{opn}/{}/{what}", if causes.is_empty() { kind } else { &causes }), || {
                         format!("{ktn}: step {i} {opn} returned Err({kind}) but {what} changed (seq {}→{}, verify {})", pre.seq, post.seq, post.verify)
                     }, &replay);
+                    // ---- C05: the always-signed invariant ranges over every state of the caller's record, also the
+                    // one a failing update leaves behind (on a correct library that is the checked pre-state)
+                    if let Err(why) = authentic(&post) {
+                        ctx.violate("C05", "record-invalid-after-failed-update", &format!("{opn}/{why}"), || {
+                            format!("{ktn}: after step {i} {opn} returned Err({kind}) the record fails {why}")
+                        }, &replay);
+                        // later steps would only report consequences of this state
+                        abandon = true;
+                    }
                 }
                 // ---- C07: only successful updates move the sequence number
                 if post.seq != pre.seq {
@@ -1040,6 +1054,10 @@ fn run_history_inner<KK: KeyKind>(ctx: &mut Ctx, h: &History, opts: &RunOpts) ->
                     break;
                 }
             }
+        }
+        if abandon {
+            ctx.count("histories-abandoned-on-broken-state");
+            break;
         }
         if events.len() < 40 {
             events.push(json!({"op": opn, "arg": match &step.op {
